@@ -153,6 +153,43 @@ theorem step_refines {n : Nat} {s : St} (h : Inv n s) (op : Op) :
     · have hl' : liveN s a = false := by simpa using hl
       simp only [hl', absPool_of_dead hl']
       exact ⟨rfl, rfl⟩
+  | pokeRef a v =>
+    simp only [step, specStep]
+    by_cases hl : liveN s a = true
+    · have hty := typeOf_eq_held_tag s (.named a)
+      have hsnd := pokeRef_snd s (.named a) v
+      simp only [hl, if_true, absPool_of_live hl, pokeRef_fst]
+      cases hh : held s (.named a) with
+      | none =>
+        simp only [hh, Option.map_none] at hty
+        have h2 : (pokeRef s (.named a) v).2 = false := by
+          cases hb : (pokeRef s (.named a) v).2 with
+          | false => rfl
+          | true => rw [hsnd.1 hb] at hty; simp at hty
+        refine ⟨absPool_congr _ fun j => ?_, by simp [h2]⟩
+        simp only [liveN, isLive_poke, held_poke ho, hty, absPool_apply]
+        simp
+      | some w =>
+        simp only [hh, Option.map_some] at hty
+        by_cases htag : w.tag = v.tag
+        · have h2 : (pokeRef s (.named a) v).2 = true := hsnd.2 (by rw [hty, htag])
+          simp only [htag, if_true]
+          refine ⟨absPool_congr _ fun j => ?_, by simp [h2]⟩
+          simp only [liveN, isLive_poke, held_poke ho, hty, htag, upd_apply, absPool_apply, Obj.named.injEq]
+          by_cases hja : j = a
+          · subst hja; simp_all [liveN]
+          · simp [hja]
+        · have hne : ¬ (some w.tag = some v.tag) := by simpa using htag
+          have h2 : (pokeRef s (.named a) v).2 = false := by
+            cases hb : (pokeRef s (.named a) v).2 with
+            | false => rfl
+            | true => exact absurd (hty ▸ hsnd.1 hb) hne
+          simp only [htag, if_false]
+          refine ⟨absPool_congr _ fun j => ?_, by simp [h2]⟩
+          simp only [liveN, isLive_poke, held_poke ho, hty, hne, and_false, if_false, absPool_apply]
+    · have hl' : liveN s a = false := by simpa using hl
+      simp only [hl', absPool_of_dead hl']
+      exact ⟨rfl, rfl⟩
   | castVal a t f =>
     simp only [step, specStep]
     by_cases hl : liveN s a = true
